@@ -34,6 +34,7 @@ import jsonpath
 from jpsim import core
 from jpsim import gen_json
 from jpsim import gen_query
+from jpsim import tripwire
 from jpsim.core import Ctx
 from jpsim.core import Violation
 from jpsim.loop import SimBudget
@@ -75,9 +76,10 @@ ASSUMPTIONS = [
 PROBES = [
     "filter_with_cacheable_nodes_evaluated", "reuse_depth_ge_100", "preempted_inside_compile", "preempted_inside_filter",
     "abandoned_mid_filter", "cancel_inside_evaluation", "repurge_between_regex_calls", "same_query_two_docs_midflight",
-    "preempt_same_file_two_threads", "compiled_many_other_texts", "short_lived_documents",
+    "preempt_same_file_two_threads", "compiled_many_other_texts", "short_lived_documents", "filter_raised_type_error",
 ]
-_SCRATCH_ENV = jsonpath.JSONPathEnvironment()
+_SCRATCH_ENV = tripwire.register(jsonpath.JSONPathEnvironment())
+tripwire.register(jsonpath.DEFAULT_ENV)  # a constant, stateless addition to the module-level environment
 ENVS = ["on", "off", "default"]
 
 
@@ -138,6 +140,8 @@ def generate(seed: int, config: str, tier: str) -> Dict[str, Any]:
     opts["p_ctx"] = 0.25 if ctxs[0] is not None else 0.0
     if ctxs[0] is not None or rng.random() < 0.5:
         opts["p_ext"] = max(opts["p_ext"], 0.15)
+    if faulty and frng.random() < 0.3:
+        opts["p_trip"] = 0.2  # some filters die half-way with the one error family a filter may raise
     queries: List[str] = []
     for _ in range(rng.randint(2, 6)):
         d = rng.choice(docs)
@@ -300,16 +304,16 @@ class World:
         self.envs: Dict[str, Any] = {}
         for e in plan["envs"]:
             if e == "on":
-                self.envs[e] = jsonpath.JSONPathEnvironment(filter_caching=True)
+                self.envs[e] = tripwire.register(jsonpath.JSONPathEnvironment(filter_caching=True))
             elif e == "off":
-                self.envs[e] = jsonpath.JSONPathEnvironment(filter_caching=False)
+                self.envs[e] = tripwire.register(jsonpath.JSONPathEnvironment(filter_caching=False))
             else:
                 self.envs[e] = jsonpath.DEFAULT_ENV
         self.store = store
         self.docs: List[Any] = [self.fresh_doc(i) for i in range(len(plan["docs"]))]
         self.ctxs: List[Any] = [copy.deepcopy(c) for c in plan["ctxs"]]
         # sequential specification: an environment of its own with caching off, a fresh compile per evaluation
-        self._ref_env = jsonpath.JSONPathEnvironment(filter_caching=False)
+        self._ref_env = tripwire.register(jsonpath.JSONPathEnvironment(filter_caching=False))
         self.refs: Dict[Tuple[int, int, int], _Ref] = {}
         for script in plan["clients"]:
             for op in script:
@@ -322,12 +326,15 @@ class World:
                     key = (qi, d % len(self.docs), ci)
                     if key not in self.refs:
                         self.refs[key] = self._reference(self.texts[qi], key[1], ci)
+        for r_ in self.refs.values():
+            if r_.exc == "JSONPathTypeError" or r_.all_exc == "JSONPathTypeError":
+                ctx.count("probe.filter_raised_type_error")
         # shared compiled queries: compiled once per environment
         self.compiled: Dict[Tuple[str, int], Any] = {}
         self.compiled_str: Dict[Tuple[str, int], str] = {}
         self.compiled_sel: Dict[Tuple[str, int], Any] = {}
         self.pristine: Dict[int, Any] = {}
-        penv = jsonpath.JSONPathEnvironment()
+        penv = tripwire.register(jsonpath.JSONPathEnvironment())
         for qi, t in enumerate(self.texts):
             self.pristine[qi] = penv.compile(t)
             for e, env in self.envs.items():
